@@ -960,4 +960,139 @@ theorem gen_good (Δ : Decls) (o : Opts) : ∀ (f : Nat),
           obtain ⟨hi1, hp1⟩ := stepField_good (a := a) hg (hsub c (by simp)) ha1 hp (fun n hn => (mR ps _ c.ty a.σ).1 n hn)
           exact ihF ps cs _ cands0 hps hi1 ha (fun c' hc' => hsub c' (List.mem_cons_of_mem _ hc')) hp1
 
+/-! ### root level: pointer stripping of type and value -/
+theorem hered_strip (bad : List Cand → Bool) : ∀ (t : GoType), hered bad (stripPtr t) = hered bad t
+  | .ptr t => by simp only [stripPtr, hered]; exact hered_strip bad t
+  | .bool | .int _ | .float _ | .string | .bytes | .time | .slice _ | .map _ | .struct _ | .named _
+  | .defd _ _ | .array _ _ | .recs _ => by simp [stripPtr]
+
+theorem heredAll_strip (bad : List Cand → Bool) (Δ : Decls) (t : GoType) :
+    heredAll bad Δ (stripPtr t) = heredAll bad Δ t := by
+  simp only [heredAll, hered_strip]
+
+/-- a value that does not encode as `null` is, below its non-nil root pointers, a value of the stripped type
+    with the same encoding -/
+theorem strip_value (Δ : Decls) : ∀ (v : GoVal) (t : GoType), hasTypeB Δ t v = true → encode Δ t v ≠ .null →
+    ∃ v', hasTypeB Δ (stripPtr t) v' = true ∧ encode Δ (stripPtr t) v' = encode Δ t v
+  | .ref v, t, ht, hn => by
+      simp only [hasTypeB, Bool.and_eq_true] at ht
+      obtain ⟨t', rfl⟩ := isPtr_elim ht.1
+      simp only [elemOf] at ht
+      simp only [encode, elemOf, stripPtr] at hn ⊢
+      exact strip_value Δ v t' ht.2 hn
+  | .nil, t, _, hn => by simp [encode] at hn
+  | .b x, t, ht, _ => by
+      have hp : isPtr t = false := by
+        cases h : isPtr t with
+        | false => rfl
+        | true => obtain ⟨x, rfl⟩ := isPtr_elim h; simp [hasTypeB, under] at ht
+      exact ⟨.b x, by rw [stripPtr_of_not_ptr hp]; exact ht, by rw [stripPtr_of_not_ptr hp]⟩
+  | .i x, t, ht, _ => by
+      have hp : isPtr t = false := by
+        cases h : isPtr t with
+        | false => rfl
+        | true => obtain ⟨x, rfl⟩ := isPtr_elim h; simp [hasTypeB, under] at ht
+      exact ⟨.i x, by rw [stripPtr_of_not_ptr hp]; exact ht, by rw [stripPtr_of_not_ptr hp]⟩
+  | .f m e, t, ht, _ => by
+      have hp : isPtr t = false := by
+        cases h : isPtr t with
+        | false => rfl
+        | true => obtain ⟨x, rfl⟩ := isPtr_elim h; simp [hasTypeB, under] at ht
+      exact ⟨.f m e, by rw [stripPtr_of_not_ptr hp]; exact ht, by rw [stripPtr_of_not_ptr hp]⟩
+  | .s x, t, ht, _ => by
+      have hp : isPtr t = false := by
+        cases h : isPtr t with
+        | false => rfl
+        | true => obtain ⟨x, rfl⟩ := isPtr_elim h; simp [hasTypeB, under] at ht
+      exact ⟨.s x, by rw [stripPtr_of_not_ptr hp]; exact ht, by rw [stripPtr_of_not_ptr hp]⟩
+  | .bytes x, t, ht, _ => by
+      have hp : isPtr t = false := by
+        cases h : isPtr t with
+        | false => rfl
+        | true => obtain ⟨x, rfl⟩ := isPtr_elim h; simp [hasTypeB, isBytesTy] at ht
+      exact ⟨.bytes x, by rw [stripPtr_of_not_ptr hp]; exact ht, by rw [stripPtr_of_not_ptr hp]⟩
+  | .time x, t, ht, _ => by
+      have hp : isPtr t = false := by
+        cases h : isPtr t with
+        | false => rfl
+        | true => obtain ⟨x, rfl⟩ := isPtr_elim h; simp [hasTypeB] at ht
+      exact ⟨.time x, by rw [stripPtr_of_not_ptr hp]; exact ht, by rw [stripPtr_of_not_ptr hp]⟩
+  | .slice vs, t, ht, _ => by
+      have hp : isPtr t = false := by
+        cases h : isPtr t with
+        | false => rfl
+        | true => obtain ⟨x, rfl⟩ := isPtr_elim h; simp [hasTypeB, under] at ht
+      exact ⟨.slice vs, by rw [stripPtr_of_not_ptr hp]; exact ht, by rw [stripPtr_of_not_ptr hp]⟩
+  | .map kvs, t, ht, _ => by
+      have hp : isPtr t = false := by
+        cases h : isPtr t with
+        | false => rfl
+        | true => obtain ⟨x, rfl⟩ := isPtr_elim h; simp [hasTypeB, under] at ht
+      exact ⟨.map kvs, by rw [stripPtr_of_not_ptr hp]; exact ht, by rw [stripPtr_of_not_ptr hp]⟩
+  | .struct vs, t, ht, _ => by
+      have hp : isPtr t = false := by
+        cases h : isPtr t with
+        | false => rfl
+        | true => obtain ⟨x, rfl⟩ := isPtr_elim h; simp [hasTypeB] at ht
+      exact ⟨.struct vs, by rw [stripPtr_of_not_ptr hp]; exact ht, by rw [stripPtr_of_not_ptr hp]⟩
+
+theorem hasProps_node {s : Sch} (h : hasProps s = true) : ∃ ty nl fmt lo hi it pr ad cyc, s = .node ty nl fmt lo hi it pr ad cyc := by
+  cases s with
+  | ref n => simp [hasProps] at h
+  | node ty nl fmt lo hi it pr ad cyc => exact ⟨_, _, _, _, _, _, _, _, _, rfl⟩
+
+theorem okΓ_of_complete {σ : St} {Γ : Comps} (hc : Complete σ Γ) : ∀ n, okσ σ n → okΓ Γ n := by
+  intro n hn
+  obtain ⟨s, hl, hp⟩ := hc n hn
+  obtain ⟨ty, nl, fmt, lo, hi, it, pr, ad, cyc, rfl⟩ := hasProps_node hp
+  exact ⟨.node ty nl fmt lo hi it pr ad cyc, by simp [resolve, hl]⟩
+
+theorem mem_candidatesFor {σ : St} {m : String} {s : Sch} (h : s ∈ candidatesFor σ m) :
+    hasProps s = true ∧ ∃ n, (m, n, s) ∈ σ.refs := by
+  simp only [candidatesFor, List.mem_map, List.mem_filter, Bool.and_eq_true, beq_iff_eq] at h
+  obtain ⟨⟨m', n, s'⟩, ⟨hm, hn, hp⟩, rfl⟩ := h
+  simp only at hn hp
+  subst hn
+  exact ⟨hp, n, hm⟩
+
+/-- a struct schema with properties belongs to a declared struct -/
+theorem declared_of_props {Δ tn ok n s} (h : RelS Δ tn ok (.named n) s) (hp : hasProps s = true) :
+    (lookup n Δ).isSome = true := by
+  obtain ⟨ty, nl, fmt, lo, hi, it, pr, ad, cyc, rfl⟩ := hasProps_node hp
+  simp only [RelS, stripPtr, under] at h
+  obtain ⟨_, _, _, _, hrel⟩ := h
+  cases pr with
+  | nil => simp [hasProps] at hp
+  | cons kv rest =>
+    obtain ⟨k, s'⟩ := kv
+    simp only [RelProps] at hrel
+    obtain ⟨⟨c, hc, _⟩, _⟩ := hrel
+    cases hl : lookup n Δ with
+    | some fs => rfl
+    | none => simp [hl, flat, flatFs] at hc
+
+/-- the export loop fills every registered name that has a candidate; if every registered name has one, the map is complete -/
+theorem complete_of_loop {σ : St} {Γ : Comps} (hl : LoopResult σ Γ) (hd : danglingB σ = false) : Complete σ Γ := by
+  intro n hn
+  have hne : candidatesFor σ n ≠ [] := by
+    unfold danglingB at hd
+    rw [List.any_eq_false] at hd
+    have := hd n hn
+    intro he
+    simp [he] at this
+  obtain ⟨s, hs⟩ := hl.2 n hn hne
+  exact ⟨s, hs, (mem_candidatesFor (hl.1 n s hs).2).1⟩
+
+/-- outside `WrongComponent` every candidate of a registered name is the schema of the struct it is named after -/
+theorem wrong_false {o : Opts} {σ : St} (hw : wrongCandB o σ = false) {m n : String} {s : Sch}
+    (hmem : (m, n, s) ∈ σ.refs) (hc : m ∈ σ.comps) (hp : hasProps s = true) : n ≠ "" ∧ typeName o n = m := by
+  simp only [wrongCandB, Bool.or_eq_false_iff] at hw
+  have h2 := hw.2
+  rw [List.any_eq_false] at h2
+  have := h2 (m, n, s) hmem
+  simp only [Bool.and_eq_true, not_and, Bool.not_eq_true] at this
+  have h3 := this ⟨by simpa using hc, hp⟩
+  simp only [Bool.or_eq_false_iff, beq_eq_false_iff_ne, bne_eq_false_iff_eq] at h3
+  exact ⟨h3.1, by simpa using h3.2⟩
+
 end KinModel.Gen3
